@@ -1,6 +1,8 @@
 import PyYetiVerif.Lemmas.Op4Fixed
 import PyYetiVerif.Lemmas.Op4FixedFile
 import PyYetiVerif.Lemmas.Op4FixedAscii
+import PyYetiVerif.Lemmas.Op4FixedChainC
+import PyYetiVerif.Props.C04
 /-!
 # C04 — the repair candidates for findings F2 and F3 (`…_fixed` theorems)
 
@@ -156,6 +158,71 @@ theorem ascii_values_roundtrip_fixed (g : Cfg) (d : Nat) (cplx : Bool) (hg : Goo
     ∃ blk, getBlock g (segDs cplx seg).length (valLinesFx d (segDs cplx seg) ++ rest) = (blk, rest) ∧
       readVals g blk (segDs cplx seg).length = some (seg.map (aEntryFx d cplx)) :=
   readVals_valLinesFx g d cplx hg hd hp seg rest
+
+/-- **file_roundtrip_ascii for the patched writer.**  For every non-empty list of matrices (each with its resolved
+layout) written with `d` digits, `2 ≤ d ≤ 73`, holding ANY finite doubles: `op4.load` on the text the patched writer
+produces (`loadAscii`, the unchanged reader model) returns exactly one `ADec` per matrix, in file order, carrying the
+written name field, rows (negated for bigmat), columns, form, type, the announced `perline`/`numlen`, and puts that
+rebuild (`applyPutsA`) a matrix related entry by entry (`Op4AFx.ReadOf`, see `ascii_entry_spec_fixed`) to the columns
+`decCol`.  Hypotheses: those of `file_roundtrip_ascii` (`WfA`: columns of `rows` entries, sizes that fit the
+8-character fields, a valid name; nonbigmat only below 65536 rows) WITHOUT "every written value fits its field" — the
+condition of finding F3 is gone.  (The proof is the chain of `file_roundtrip_ascii` re-checked with the three facts
+about the formatter replaced by `fmtEFx_length` / `pyFloat_fmtEFx` / `fmtEFx_fieldChar`: Lemmas/Op4FixedChain{A,B,C}.) -/
+theorem file_roundtrip_ascii_fixed (d : Nat) (hd : 2 ≤ d) (hd' : d ≤ 73) (ms : List (Layout × Mat)) (hne : ms ≠ [])
+    (hok : ∀ p ∈ ms, WfA p.2 ∧ (p.1 = .nonbigmat → p.2.rows < rows4bigmat)) :
+    ∃ ds, loadAscii (encFileAsciiFx d ms) = some ds ∧ List.Forall₂ (Op4AFx.ADecOf d) ms ds := by
+  have hp : 1 ≤ perline d := by
+    unfold perline numlen numlenBase expdigits lineWidth
+    exact (Nat.le_div_iff_mul_le (by omega)).2 (by omega)
+  exact Op4AFx.loadAscii_enc d hd hp ms hne fun p hp' =>
+    ⟨⟨(hok p hp').1.cols_len, (hok p hp').1.rows_lt, (hok p hp').1.ncols_lt, (hok p hp').1.form_lt,
+      (hok p hp').1.name_ident, (hok p hp').1.name_len⟩, (hok p hp').2, fun _ _ _ _ _ _ => trivial⟩
+
+/-- the printed zero, patched writer -/
+theorem decOfFx_zero (d b : Nat) (h : isZeroD b = true) : (decOfFx d b).man = 0 := by
+  unfold decOfFx
+  split
+  · exact decOf_zero (d - 1) b h
+  · exact decOf_zero d b h
+
+/-- what `Op4AFx.ReadOf` means entry by entry (`ascii_entry_spec` for the patched writer): a non-zero written element
+`x` reads back as exactly the printed decimal(s) `Op4AFx.aEntry d cplx x = (decOfFx d re, decOfFx d im)` — see
+`field_roundtrip_fixed` / `ascii_value_half_unit_fixed` for what `decOfFx` is — and a zero element as zero -/
+theorem ascii_entry_spec_fixed (d : Nat) (lay : Layout) (cplx : Bool) (col : List Entry) (colA : List AEntry)
+    (h : List.Forall₂ (Op4AFx.ReadOf d cplx) (decCol lay cplx col) colA) (i : Nat) (x : Entry) (hx : col[i]? = some x) :
+    ∃ y : AEntry, colA[i]? = some y ∧
+      (x.isZero cplx = false → y = (decOfFx d x.1, if cplx then decOfFx d x.2 else Dec10.zero)) ∧
+      (x.isZero cplx = true → y.1.man = 0 ∧ y.2.man = 0) := by
+  obtain ⟨yb, hyb, hnz, hz⟩ := decCol_entry lay cplx col i x hx
+  obtain ⟨y, hy, hrel⟩ := forall₂_getElem? h i yb hyb
+  refine ⟨y, hy, ?_, ?_⟩
+  · intro hxz
+    have hyb' := hnz hxz
+    rcases hrel with hr | ⟨hr, _⟩
+    · rw [hr, hyb', Op4AFx.aEntry_normE]; rfl
+    · exfalso
+      have : (normE cplx x).isZero cplx = true := by rw [← hyb', hr]; exact isZero_zero cplx
+      rw [isZero_normE] at this
+      rw [hxz] at this; cases this
+  · intro hxz
+    have hzz := hz hxz
+    rcases hrel with hr | ⟨_, hr⟩
+    · rw [hr]
+      unfold Op4AFx.aEntry
+      cases cplx
+      · simp only [Entry.isZero, Bool.false_eq_true, if_false] at hzz
+        exact ⟨decOfFx_zero d _ hzz, rfl⟩
+      · simp only [Entry.isZero, if_true, Bool.and_eq_true] at hzz
+        exact ⟨decOfFx_zero d _ hzz.1, decOfFx_zero d _ hzz.2⟩
+    · rw [hr]; exact ⟨rfl, rfl⟩
+
+/-- non-vacuity of `file_roundtrip_ascii_fixed`: the matrix of finding F3 (`[[-2.5e-120, 1.0]]`) satisfies the
+hypotheses, and its first value is one the present writer cannot write -/
+example :
+    let m : Mat := { name := [97], form := 2, cplx := false, rows := 1,
+                     cols := [[(0xA719D28F47B4D525, 0)], [(0x3FF0000000000000, 0)]] }
+    isIdent m.name = true ∧ Wide 16 0xA719D28F47B4D525 = true ∧ (sci 16 0xA719D28F47B4D525).e10 = -120 := by
+  decide +kernel
 
 /-- non-vacuity, F3: `-2.5e-120` (`ascii_overflow_example`) is `Wide` with 16 digits, and is printed with 15 -/
 example :
